@@ -603,7 +603,11 @@ def _comp_over(ex, fname, comp, gen, itv, st, call):
         if len(rs) != 1 or rs[0].kind != "val" or len(rs[0].st.pc) != len(s2.pc):
             raise Unsupported("impure / branching comprehension filter over a symbolic sequence")
         conds.append(ex.truthy(rs[0].val, s2))
-    rs = ex.eval(comp.elt, s2)
+    ex.pure_mode = True
+    try:
+        rs = ex.eval(comp.elt, s2)
+    finally:
+        ex.pure_mode = False
     if len(rs) != 1 or rs[0].kind != "val" or len(rs[0].st.pc) != len(s2.pc) or rs[0].st.heap != s2.heap:
         # allow path splits that are pure (pc grew) by folding into an If is not attempted
         raise Unsupported("impure / branching comprehension element over a symbolic sequence")
